@@ -33,6 +33,12 @@ const OPT_ID: u32 = 0x00ab_8000;
 
 /// Build a response whose section under test holds `n` records with TTL 1..=n.
 pub fn build(kind: Kind, n: usize, compressed: bool, opt: OptAt, fillers: [usize; 3], rng: &mut Rng) -> Vec<u8> {
+    build_q(kind, n, compressed, opt, fillers, rng, 0)
+}
+
+/// `qvariant`: 0 = question "q.example.", 1 = the root, 2 = "a." (short questions; owners are then literal)
+pub fn build_q(kind: Kind, n: usize, compressed: bool, opt: OptAt, fillers: [usize; 3], rng: &mut Rng, qvariant: usize) -> Vec<u8> {
+    let compressed = compressed && qvariant == 0;
     let s = match kind {
         Kind::Answer => 0,
         Kind::Authority => 1,
@@ -45,7 +51,17 @@ pub fn build(kind: Kind, n: usize, compressed: bool, opt: OptAt, fillers: [usize
     let has_opt = opt != OptAt::None;
     let ar_total = counts[2] + has_opt as usize;
     let mut a = Asm::header(0x4242, 0x8180, 1, counts[0] as u16, counts[1] as u16, ar_total as u16);
-    a.label(b"q").label(b"example").root().u16(1).u16(1);
+    match qvariant {
+        1 => {
+            a.root().u16(1).u16(1);
+        }
+        2 => {
+            a.label(b"a").root().u16(1).u16(1);
+        }
+        _ => {
+            a.label(b"q").label(b"example").root().u16(1).u16(1);
+        }
+    }
     let mut owner = |a: &mut Asm, i: usize, rng: &mut Rng| {
         if compressed {
             match rng.below(3) {
@@ -134,6 +150,12 @@ impl<'a> It<'a> {
             It::Q(i) => i.delete().map_err(|e| e.to_string()),
         }
     }
+    fn delete_err(&mut self) -> Result<(), Error> {
+        match self {
+            It::R(i, _) => i.delete(),
+            It::Q(i) => i.delete(),
+        }
+    }
     fn bytes(&self) -> Vec<u8> {
         match self {
             // (DNSIterable::packet() needs a live cursor; the object is always reachable)
@@ -205,9 +227,13 @@ pub fn walk(x: &[u8], kind: Kind, dset: &[u32], warm: bool) -> Result<(u64, u64)
                     }
                 }
                 // a second deletion through the same cursor reports a void record without touching anything
-                match item.delete() {
+                match item.delete_err() {
                     Ok(()) => return Err(("second-delete-accepted".into(), format!("second delete through the cursor of id {} succeeded", id))),
-                    Err(_) => {
+                    Err(e) => {
+                        // "reports a void record"
+                        if !matches!(e.downcast_ref::<DSError>(), Some(DSError::VoidRecord)) {
+                            return Err(("second-delete-wrong-error".into(), format!("second delete through the cursor of id {} reports {:?}, not a void record", id, e.to_string())));
+                        }
                         second_deletes += 1;
                         if item.bytes() != now {
                             return Err(("second-delete-changed-bytes".into(), format!("id {}", id)));
@@ -317,6 +343,11 @@ pub fn run(ctx: &mut Ctx) {
             configs.push((Kind::Question, c, o, 1));
         }
     }
+    // short questions (the root, a one-letter name): a question is only a name plus four bytes
+    for &o in &opts {
+        configs.push((Kind::Question, false, o, 101));
+        configs.push((Kind::Question, false, o, 102));
+    }
     let complete = ctx.only_case.is_none();
     for ci in ctx.phase("exhaustive", configs.len() as u64) {
         if ctx.out_of_time() {
@@ -326,7 +357,7 @@ pub fn run(ctx: &mut Ctx) {
         let (kind, compressed, opt, n) = configs[ci as usize];
         let mut rng = Rng::for_case(ctx.seed, "c11", 0, ci);
         let fillers = [rng.below(3), rng.below(3), rng.below(3)];
-        let x = build(kind, n, compressed, opt, fillers, &mut rng);
+        let x = if n >= 100 { build_q(kind, 1, compressed, opt, fillers, &mut rng, n - 100) } else { build(kind, n, compressed, opt, fillers, &mut rng) };
         let m = match refparse(&x, RELAXED) {
             Ok(d) => d.msg,
             Err(_) => {
